@@ -463,3 +463,21 @@ def abs_c10(w, sess, frames, t0, hs_len, res):
 
 
 ABSTRACT["C10"] = abs_c10
+
+
+def abs_c11(w, sess, frames, t0, hs_len, res):
+    spec = res["spec"]
+    evs = [{"e": "Handshake", "ok": bool(res["stats"].get("handshake")), "premise": bool(spec.get("premise"))}]
+    us = res["stats"].get("users") or []
+    res["stats"]["negotiated"] = {k: us[0].get(k) for k in ("enc", "downenc", "fragsize", "lazy")} if us else None
+    qt = None
+    for e in w.trace:
+        if e["ev"] == "Send" and e["inst"] == "C0" and e["data"][:3] != proto.RAW_HDR:
+            m = D.parse(e["data"])
+            if m.qd:
+                qt = m.qd[0][1]
+    res["stats"]["qtype_used"] = D.TYPENAMES.get(qt, qt)
+    return evs
+
+
+ABSTRACT["C11"] = abs_c11
